@@ -187,7 +187,7 @@ PROPS["C14"] = {
         + ([("dna_string::verif::d_dna_eq_ord_hash_b2", "derived ==/cmp/Hash on strings of <= 64 bases (2 words)")] if tier == "thorough" else []),
     "design_ref": "DESIGN.md §6 C14",
     "undecided": ["PackedDnaStringSet::add is proved at the instance S = Vec<u8>, R = u8 of its generic item source (R21), for sequences of up to i32::MAX items (its counter `length` is an i32 by integer fallback)",
-                  "derived Ord: word-level order fact complete (d_word_order); whole-string lexicographic law only as a bounded stand-in",
+                  "derived Ord: lemma_ord_iff_view proves for ALL lengths that the order of (storage, then len) - what #[derive(Ord)] compares, in the field order read from the source on every run (obligation derive_shape_DnaString) - is the lexicographic order of the base sequences with a proper prefix first, on wf values; its word-level ingredient (u64 order = lane-lexicographic order) is the Kani-complete d_word_order, restated as axiom_word_order; that the derived impl compares exactly these fields in this way is the derive semantics (assumed; cross-checked by the bounded stand-ins)",
                   "derived ==/Hash: lemma_eq_iff_view proves (storage, len) equal <=> views equal on wf values for all lengths; that the derived impls compare/hash exactly (storage, len) is the derive semantics (assumed; cross-checked by the bounded stand-ins)"],
     "trust": VERUS_TRUST + [ADAPTER_NOTE],
     "level_text": "Data-structure contract: every DnaString operation under contract (new, with_capacity, blank, push, extend, from_bytes, from_dna_string, from_acgt_bytes (scalar path and vector path steps), to_bytes, to_ascii_vec, Display, reverse, rc, set_mut, get, len, is_empty, clear, push_bytes, iter/next, addr/get_by_addr/set_by_addr; PackedDnaStringSet::new/add/get/slice/len) is proved to preserve the representation invariant wf (exact word count, zero padding) and to transform the abstract base vector exactly as the plain-vector operation does, for all lengths (Verus, unbounded). ndiffs / hamming_distance are proved to count the differing positions of two equal-length strings for every length (padding contributes nothing by wf). History quantifier = induction over these per-operation contracts.",
